@@ -13,7 +13,7 @@ LEVEL_TEXT = ("Static structural proof of necessary conditions: (R15.1) alias-ba
               "(R15.3) in the grouping parser each branch taken on an opening symbol reaches its end only through a test "
               "of the matching closing token whose failing edge raises, and _parse raises when tokens remain. Matching "
               "semantics, the algebraic laws and sibling-order invariance are NOT decided.")
-LEVEL_EXTRA = 'Added after the seeded evaluation: (R15.3) every opening grouping token, including the exact-match form, tests its closing token and raises, and the token fetcher raises past the end; (R15.4) search results are merged and compared by object identity, never by tag equality. Added after the hunting pass: (R15.4) also the groups of two results are compared by identity; (R15.5) every fixed-text alternative of the tokenizer pattern has a kind in the Token table. (R15.6) the element-wise zip comparison of two results is dominated by a length comparison; (R15.7) the tokenizer builds one Token per occurrence.'
+LEVEL_EXTRA = 'Added after the seeded evaluation: (R15.3) every opening grouping token, including the exact-match form, tests its closing token and raises, and the token fetcher raises past the end; (R15.4) search results are merged and compared by object identity, never by tag equality. Added after the hunting pass: (R15.4) also the groups of two results are compared by identity; (R15.5) every fixed-text alternative of the tokenizer pattern has a kind in the Token table. (R15.6) the element-wise zip comparison of two results is dominated by a length comparison; (R15.7) the tokenizer builds one Token per occurrence. (R15.8) a bare term is tested against the schema-path terms of the tag.'
 
 ACCESSORS = ["find_tags", "find_wildcard_tags", "find_exact_tags", "find_def_tags", "find_tags_with_term",
              "get_all_tags", "get_all_groups", "tags", "groups", "find_placeholder_tag"]
@@ -256,6 +256,22 @@ def run(ctx):
     ctx.floor("R15.7", "per-occurrence Token constructions in the tokenizer", fresh + len(other), 1)
     if not other:
         ctx.ok("R15.7", "%d per-occurrence Token construction(s), none shared (Expression.__init__ edits its token: %s)" % (fresh, edits_token), loc(tkz, tkz.node))
+
+    # ---------------- R15.8: a bare term is matched against the schema path of the tag, not against its text
+    ctx.rule("R15.8", "find_tags_with_term tests membership in the tag's schema-path terms")
+    ftt = hg.methods.get("find_tags_with_term")
+    if ftt is None:
+        raise AnalysisError("anchor HedGroup.find_tags_with_term vanished")
+    ctx.saw(ftt)
+    from sa.dataflow import ReachingDefs as _RD15, depends_on as _dep15
+    rd8 = _RD15(ftt)
+    tests8 = [c for c in walk_no_nested(ftt.node) if isinstance(c, ast.Compare) and len(c.ops) == 1 and isinstance(c.ops[0], (ast.In, ast.NotIn))]
+    ctx.floor("R15.8", "term membership tests in find_tags_with_term", len(tests8), 1)
+    for c in tests8:
+        ok = _dep15(rd8, c.comparators[0], c, lambda x: isinstance(x, ast.Attribute) and x.attr == "tag_terms")
+        ctx.check(ok, "R15.8", ftt.qualname, c, loc(ftt, c),
+                  "the term is looked for in something other than the tag's schema-path terms: value and extension text then counts as a "
+                  "term, so `Face` matches `Label/Face` and `~Face` stops matching it", desc="term tested against tag_terms")
 
 
 def _only_guards_raise(m, cmp):
